@@ -140,6 +140,10 @@ _STEPS = [
     "implies(" + _OUTSIDE + ", 0 <= " + _NBK + " and " + _NBK + " < B)",
     "implies(" + _OUTSIDE + ", dsq18(grid, pixel_index, border_grid, " + _NBK + ") <= dsq18(grid, pixel_index, border_grid, closest_pixel_index))",
     "implies(" + _OUTSIDE + ", dsq18(grid, pixel_index, border_grid, closest_pixel_index) <= dsq18(grid, pixel_index, border_grid, " + _NBK + "))",
+    "implies(" + _OUTSIDE + " and closest_pixel_index < " + _NBK + ", dsq18(grid, pixel_index, border_grid, closest_pixel_index)"
+    " > dsq18(grid, pixel_index, border_grid, " + _NBK + "))",
+    "implies(" + _OUTSIDE + " and " + _NBK + " < closest_pixel_index, dsq18(grid, pixel_index, border_grid, closest_pixel_index)"
+    " < dsq18(grid, pixel_index, border_grid, " + _NBK + "))",
     "implies(" + _OUTSIDE + ", not closest_pixel_index < " + _NBK + ")",
     "implies(" + _OUTSIDE + ", not " + _NBK + " < closest_pixel_index)",
     "implies(" + _OUTSIDE + ", closest_pixel_index == " + _NBK + ")",
